@@ -2001,7 +2001,7 @@ fn main() {
     let wide_arg = !a.contains_key("replay") && kverif::arg_u64(&a, "wide", 0) != 0;
     FORGET.store(kverif::arg_u64(&a, "forget", 0) != 0, std::sync::atomic::Ordering::Relaxed);
     let bigfill = kverif::arg_str(&a, "bigfill", "").to_string();
-    let classes_arg = kverif::arg_str(&a, "classes", "P8,PB,L40,LS,S4,S1,Z0,ZA,L16,N8,N40,N4,A32").to_string();
+    let classes_arg = kverif::arg_str(&a, "classes", "P8,PB,L40,LS,S4,S1,Z0,ZA,L16,N8,N40,N4,A32,P0").to_string();
     let classes: Vec<&str> = classes_arg.split(',').collect();
     let caps_arg = kverif::arg_str(&a, "caps", "0,1,2,u").to_string();
     let caps: Vec<Option<usize>> = caps_arg.split(',').map(parse_cap).collect();
